@@ -210,6 +210,11 @@ def run_world(case, sdk, checks):
                         w.flag(i, "failure-not-returned", "data operation under %s returned %s" % (w.failure, json.dumps(o)[:80]))
                 elif not (expected_err(o, want) or (sdk == "v1" and expected_err(o, "Validation"))):
                     w.flag(i, "failure-not-returned", "data operation under %s returned %s" % (w.failure, json.dumps(o)[:80]))
+            if name == "batchWrite" and "restrictions" in checks and k == "batchWrite":
+                # the batch rules hold whatever state the database is in: a failing database does not make a malformed batch acceptable
+                n_req = sum(len(r[1]) for r in op.get("wreqs", []))
+                if any(("both" in r or r.get("neither")) for tr in op.get("wreqs", []) for r in tr[1]) or n_req > 25:
+                    w.flag(i, "batch-rule-not-detected", "a BatchWriteItem with %d requests / a malformed write request was accepted (while a failure is emulated)" % n_req)
             continue
         if name == "setFailure":
             w.failure = None if op["f"] == "none" else op["f"]
@@ -340,6 +345,10 @@ def run_world(case, sdk, checks):
                     # *returned*); what is stored keeps its value, and the next state is what is stored
                     res = restore_empties(t.items[key], res)
                 t.items[key] = res
+            elif "native" in checks and w.native and k == "err" and o.get("err") not in ("Unsupported", "ConditionalCheckFailed", "ResourceNotFound") \
+                    and key is not None and (op["table"], norm_ws(hx(op.get("expr", "")))) not in w.updaters and not op.get("cond") \
+                    and not w.failure and well_formed_placeholders(op) and not op.get("noExpr"):
+                w.flag(i, "native-update-wrong-error", "with the native interpreter active and no updater registered, UpdateItem must fail with the unsupported-feature error; it failed with %s" % o.get("err"), impl=o)
             elif "native" in checks and w.native and k in ("err", "panicErr") and (o.get("err") or o.get("panicErr")) == "Unsupported" \
                     and (op["table"], norm_ws(hx(op.get("expr", "")))) in w.updaters:
                 w.flag(i, "native-updater-not-dispatched", "an updater is registered for this table and expression and the native interpreter is "
@@ -620,6 +629,10 @@ def expr_predicate(w, op, table_hex, kind, text_field, tree_field):
     if tree is None:
         tree = NATIVE_TREES.get(norm_ws(raw)) if w.native or norm_ws(raw) in NATIVE_TREES else None
     if tree is None:
+        squeeze = lambda b: bytes(c for c in b if c not in b" \t\n\r")
+        if any(squeeze(raw) == squeeze(k) for k in NATIVE_TREES):
+            # one of the known texts with a blank inside a word or between ':' and its name: not that text, and no sentence
+            return lambda it: {"E"}
         if b"|" in raw or b"\\" in raw:
             # a byte no token of the grammar contains: not a sentence, whatever surrounds it
             return lambda it: {"E"}
@@ -973,9 +986,13 @@ def judge(prop, case):
                 v += judge_restrictions_hist(case, sdk)
         return v
     if kind == "match":
-        return judge_match(prop, case)
+        if prop == "C05":
+            # the conditions of C05 are the clients' business: the same condition decides a Scan, a PutItem and a DeleteItem
+            # through each client exactly as the interpreter decides it (what the interpreter itself answers is C06's)
+            return client_flags(case)
+        return judge_match(prop, case) + client_flags(case)
     if kind == "update":
-        return judge_update(prop, case)
+        return judge_update(prop, case) + client_flags(case)
     if kind == "decomp":
         return [dict(x, sig="decomp:" + x.get("where", "")) for x in case["impl"].get("violations", [])]
     if kind == "poke":
@@ -983,6 +1000,22 @@ def judge(prop, case):
     if kind == "race":
         return [dict(x, sig="race:" + x.get("what", "")) for x in case["impl"].get("violations", [])]
     return []
+
+
+def well_formed_placeholders(op):
+    """every supplied name and value is well-formed and used, every placeholder used is supplied"""
+    names = [hx(n[0]) for n in op.get("names") or []]
+    values = [hx(kv[0]) for kv in op.get("values") or []]
+    text = b" ".join(hx(op.get(f) or "") for f in ("expr", "cond", "keyCond", "filter"))
+    toks = set(tokens(text))
+    if any(n not in toks or not placeholder_ok(n) for n in names + values):
+        return False
+    return not any(t[:1] in (b"#", b":") and t not in names + values for t in toks)
+
+
+def client_flags(case):
+    """the same expression through the two clients (harness/clients.go): they are held to the interpreter's own answer"""
+    return [dict(x, sig="client:" + x.get("where", ""), why=x.get("what", "")) for x in (case.get("clients") or [])]
 
 
 def impl_letter(o):
